@@ -5,6 +5,8 @@ import (
 	"regexp"
 	"strconv"
 	"strings"
+	"sync/atomic"
+	"time"
 
 	"github.com/elliotchance/gedcom/v39"
 )
@@ -16,8 +18,37 @@ import (
 var decLineNo = regexp.MustCompile(`^line (\d+):`)
 
 // decObserve runs the real decoder and returns the canonical observation
-// "ok bom=<b> <dump>" | "err <line>" | "panic <class>".
+// "ok bom=<b> <dump>" | "err <line>" | "panic <class>" | "hang" (no result within decTimeout; the
+// decoding goroutine is abandoned — after decMaxHangs hangs every further call answers "hang-skipped"
+// so that a non-terminating decoder cannot stall the whole run).
 func decObserve(text string, multi, inv bool) (obs string, doc *gedcom.Document) {
+	if atomic.LoadInt32(&decHangs) >= decMaxHangs {
+		return "hang-skipped", nil
+	}
+	type res struct {
+		obs string
+		doc *gedcom.Document
+	}
+	ch := make(chan res, 1)
+	go func() {
+		o, d := decObserveRaw(text, multi, inv)
+		ch <- res{o, d}
+	}()
+	select {
+	case r := <-ch:
+		return r.obs, r.doc
+	case <-time.After(decTimeout):
+		atomic.AddInt32(&decHangs, 1)
+		return "hang", nil
+	}
+}
+
+var decHangs int32
+
+const decMaxHangs = 3
+const decTimeout = 20 * time.Second
+
+func decObserveRaw(text string, multi, inv bool) (obs string, doc *gedcom.Document) {
 	defer func() {
 		if r := recover(); r != nil {
 			msg := fmt.Sprint(r)
